@@ -39,6 +39,8 @@ func runC17(c *Ctx) {
 	// Lock/RLock record the caller's stack trace in debug mode while holding the internal mutex: the
 	// trace helpers must not panic on a line shape they did not expect
 	checkIndexResultGuarded(r, p, "trace/index-result-guarded", []string{"runtime/debug"})
+	// all queued readers become admissible together: they are woken together
+	checkCondWakeIsBroadcast(r, p, pkg, "StarvingMutex", "readerCond")
 	conds := discoverConds(p, pkg)
 	if len(conds) < 6 {
 		r.Fail("cond/wiring", pkg, "-", fmt.Sprintf("expected the 6 condition variables of StarvingMutex, Counter and Stack to be wired to a Locker in their constructors, found %v", conds))
